@@ -39,3 +39,18 @@ Proof.
   rewrite forallb_forall in H1. specialize (H1 i Ii). apply Nat.ltb_lt in H1.
   rewrite forallb_forall in HS. apply HS. now apply nth_In.
 Qed.
+
+(* the same, through the canonical byte view (Sym/Canon.v): every backend whose obligations check computes
+   ONE function of the canonical bytes - rounds k..11 in the layout-free (KL8) specification *)
+From AsconV Require Import Sym.Canon.
+Lemma seq_lt12 k : k <= 12 -> forallb (fun j => j <? 12) (seq k (12 - k)) = true.
+Proof. intros H. apply forallb_forall. intros j Hj. apply in_seq in Hj. apply Nat.ltb_lt. lia. Qed.
+Theorem backend_canonical L segs chains : backend_ok L segs chains = true ->
+  forall k, k <= 12 -> exists idx, In (k, idx) chains /\
+  forall m oo, widths_of m = mem_widths -> widths_of oo = entry_others (chain_of segs idx) ->
+  pexec BoolAlg (view L) (run_chain (chain_of segs idx) (m ++ oo)) =
+  pexec BoolAlg (chain_spec KL8 (seq k (12 - k))) (pexec BoolAlg (view L) m).
+Proof.
+  intros H k Hk. destruct (backend_sound L segs chains H k Hk) as [idx [I E]]. exists idx. split; [exact I|].
+  intros m oo Wm Wo. rewrite (E m oo Wm Wo). apply canon_chain; [exact Wm | now apply seq_lt12].
+Qed.
